@@ -110,6 +110,24 @@ Theorem C09_partial_sites_covered : forall s, In s decode_sites -> is_partial s 
 Proof. exact partial_sites_all. Qed.
 Print Assumptions C09_partial_sites_covered.
 
+(* RunLengthDecode (its own limit counter: written++ per byte, tested with == before every byte):
+   for ALL encoded inputs, limits and decode modes the decoder never holds more than the limit in force,
+   whether it returns the data, stops at maxLen, or fails; fuel (= input length) always suffices *)
+Theorem C09_runlength_le_limit : forall mdb maxLen src,
+  let limit := decodeLimit mdb maxLen in
+  rlDecode mdb maxLen src <> RLFuel /\
+  (0 <= limit -> Z.of_nat (length (rl_out (rlDecode mdb maxLen src))) <= limit).
+Proof. exact runlength_le_limit. Qed.
+Print Assumptions C09_runlength_le_limit.
+
+(* ASCIIHexDecode: the make([]byte, n) it performs is within the limit (full) / equals maxLen (partial) *)
+Theorem C09_ahx_alloc_le_limit : forall mdb digits maxLen n, 0 <= digits ->
+  ahxGate mdb digits maxLen = AHAlloc n ->
+  0 <= n <= digits / 2 /\ n <= maxInt64 / 2 /\
+  (maxLen < 0 -> 0 <= decodeLimit mdb (-1) -> n <= decodeLimit mdb (-1)) /\ (0 <= maxLen -> n = maxLen).
+Proof. exact ahx_alloc_le_limit. Qed.
+Print Assumptions C09_ahx_alloc_le_limit.
+
 Theorem C09_image_bounded : forall w h l px rb, imageOK w h l = Ok (px, rb) ->
   0 < w /\ 0 < h /\ px = w * h /\ px <= MaxImagePixels l /\ rb = 4 * px /\
   rb <= MaxImageBytes l /\ rb <= maxInt64.
@@ -141,5 +159,8 @@ Example C09_nonvacuous :
   xrefObjects 10 (Some [(0, 3); (8, 2)]) (mklim 100 5 0 0 0 0) false = Ok (5, 10, 10) /\
   imageOK 40000 40000 (mklim 0 0 0 0 (2^40) (2^40)) = Ok (1600000000, 6400000000) /\
   rowGuard 1048576 (Some 12) None None (Some 67108864) 16 = RErrLimit /\
+  rlDecode 5 (-1) [254; 65; 253; 66]%N = RLErrLimit [65; 65; 65; 66; 66]%N /\
+  rlDecode 7 (-1) [254; 65; 253; 66]%N = RLOk [65; 65; 65; 66; 66; 66; 66]%N /\
+  rlDecode 7 4 [254; 65; 253; 66]%N = RLOk [65; 65; 65; 66]%N /\
   rowGuard 1048576 (Some 12) None None (Some 1048575) 16 = RAlloc 1048575 1048576.
 Proof. vm_compute. repeat split. Qed.
